@@ -234,9 +234,36 @@ def strip_lean_comments(s: str) -> str:
     return "".join(out)
 
 
-def forbidden_tokens() -> list[str]:
+def import_closure(mods: list[str]) -> list[Path]:
+    """source files of the given modules and of everything they import inside this project"""
+    seen: dict[str, Path] = {}
+    todo = list(mods)
+    while todo:
+        m = todo.pop()
+        if m in seen or not m.startswith("SparkxVerif"):
+            continue
+        f = LEAN / (m.replace(".", "/") + ".lean")
+        if not f.exists():
+            continue
+        seen[m] = f
+        for line in f.read_text().splitlines():
+            mm = re.match(r"\s*(?:public\s+)?import\s+([A-Za-z0-9_.]+)", line)
+            if mm:
+                todo.append(mm.group(1))
+    return list(seen.values())
+
+
+def forbidden_tokens(prop: str | None = None) -> list[str]:
+    """grep (comments stripped) over the import closure of the property's modules and its driver"""
     hits = []
-    files = list((LEAN / "SparkxVerif").rglob("*.lean")) + list((LEAN / "drivers").glob("*.lean")) + [LEAN / "SparkxVerif.lean"]
+    if prop is None:
+        files = list((LEAN / "SparkxVerif").rglob("*.lean")) + list((LEAN / "drivers").glob("*.lean"))
+    else:
+        ob = obligations(prop)
+        files = import_closure(list(ob["modules"]) + list(ob.get("driver_modules", [])))
+        d = LEAN / "drivers" / f"{prop}.lean"
+        if d.exists():
+            files.append(d)
     for f in files:
         txt = strip_lean_comments(f.read_text())
         for m in FORBIDDEN.finditer(txt):
@@ -308,7 +335,8 @@ def standard_flow(ctx: Ctx, mod):
         for p_ in problems:
             ctx.brk("proof-broken", "axiom audit: " + p_)
         discharged = sum(1 for n in names if axioms.get(n) is not None and set(axioms[n]) <= ALLOWED_AXIOMS)
-        hits = forbidden_tokens()
+        hits = forbidden_tokens(prop)
+        ctx.cov["files_in_closure"] = len(import_closure(list(ob["modules"]) + list(ob.get("driver_modules", []))))
         for h in hits:
             ctx.brk("proof-broken", "forbidden token " + h)
         if ctx.thorough and ob.get("leanchecker", True):
